@@ -30,11 +30,43 @@ def programs(ctx, n, cfgdir):
             continue
         out.append(("corpus:" + os.path.basename(f), t))
     shipped = straight.calls_from_config(cfgdir)
+    out += union_pair_programs(rng, cfgdir, max(6, n // 20))
     for i in range(n // 4):
         out.append(("grammar%d" % i, progs.gen_program(rng, cfgdir, level=rng.choice([0, 1, 2, 3, 4]))))
     for i in range(n // 4):
         g = straight.Gen(rng, shipped)
         out.append(("straight%d" % i, g.program(rng.randint(8, 16))))
+    return out
+
+
+def union_pair_programs(rng, cfgdir, n):
+    """calls on union receivers built from two literal classes, in both orders, for the method names (operators included) that both
+    classes declare: the return types of the two declarations are merged while the call is resolved"""
+    import glob
+    lits = {"Integer": "1", "Float": "1.5", "String": "'s'", "Symbol": ":a", "Array": "[1]", "Hash": "{a: 1}"}
+    meths = {}
+    for f in glob.glob(os.path.join(cfgdir, "*.json")):
+        try:
+            d = json.load(open(f))
+        except Exception:
+            continue
+        if d.get("class") in lits and d.get("frame") == "Builtin":
+            for m in d.get("instance_methods") or []:
+                if not m.get("block_parameters"):
+                    meths.setdefault(d["class"], {})[m["name"]] = len([a for a in (m.get("arguments") or []) if not a.get("is_default")])
+    out = []
+    pairs = [(a, b) for a in sorted(meths) for b in sorted(meths) if a != b]
+    rng.shuffle(pairs)
+    for (a, b) in pairs[:n]:
+        common_names = sorted(set(meths[a]) & set(meths[b]))
+        lines = ["uq = true ? %s : %s" % (lits[a], lits[b]), "aq = 2"]
+        for name in common_names:
+            ar = max(meths[a][name], meths[b][name])
+            if re.match(r"^[a-z_][a-z0-9_]*[?!]?$", name):
+                lines.append("uq.%s%s" % (name, "(%s)" % ", ".join(["aq"] * ar) if ar else ""))
+            elif name in ("+", "-", "*", "/", "%", "==", "<", ">", "<=", ">=", "<=>", "<<", "&", "|"):
+                lines.append("rq = uq %s aq" % name)
+        out.append(("unionpair:%s|%s" % (a, b), "\n".join(lines) + "\n"))
     return out
 
 
@@ -93,6 +125,9 @@ def probe_text(cfgdir):
         lines.append("zq = %s %s %s" % (a, op, b))
         lines.append("dbtp zq")
     lines.append("wq = 3\nzq2 = 2 * wq\ndbtp zq2")
+    for a, op in [("2", "*"), ("2", "+"), ("2.5", "*"), ("'a'", "+"), ("'a'", "*")]:
+        lines.append("zq3 = %s %s undefq" % (a, op))       # an argument of unknown type: the whole declared return type shows
+        lines.append("dbtp zq3")
     return "\n".join(lines) + "\n"
 
 
